@@ -226,11 +226,14 @@ pub fn run_one(rng: &mut Rng, t: &mut Trace, tier: &str) -> usize {
             };
             let mut ij = item_json(&item);
             ij["ev"] = json!("Send");
+            // the sender may mark media as droppable; the transport here never drops anything, so every item must still arrive
+            let droppable = rng.chance(1, 3);
+            ij["droppable"] = json!(droppable);
             let ok = if publish {
                 wld.tick();
                 let r = match &item {
-                    Item::Audio(ts, d) => wld.c.publish_audio_data(Bytes::from(d.clone()), RtmpTimestamp::new(*ts), false),
-                    Item::Video(ts, d) => wld.c.publish_video_data(Bytes::from(d.clone()), RtmpTimestamp::new(*ts), false),
+                    Item::Audio(ts, d) => wld.c.publish_audio_data(Bytes::from(d.clone()), RtmpTimestamp::new(*ts), droppable),
+                    Item::Video(ts, d) => wld.c.publish_video_data(Bytes::from(d.clone()), RtmpTimestamp::new(*ts), droppable),
                     Item::Meta(m) => wld.c.publish_metadata(m),
                 };
                 match r {
@@ -242,8 +245,8 @@ pub fn run_one(rng: &mut Rng, t: &mut Trace, tier: &str) -> usize {
                 let sid = wld.play_sid.unwrap_or(1);
                 wld.tick();
                 let r = match &item {
-                    Item::Audio(ts, d) => wld.s.send_audio_data(sid, Bytes::from(d.clone()), RtmpTimestamp::new(*ts), false),
-                    Item::Video(ts, d) => wld.s.send_video_data(sid, Bytes::from(d.clone()), RtmpTimestamp::new(*ts), false),
+                    Item::Audio(ts, d) => wld.s.send_audio_data(sid, Bytes::from(d.clone()), RtmpTimestamp::new(*ts), droppable),
+                    Item::Video(ts, d) => wld.s.send_video_data(sid, Bytes::from(d.clone()), RtmpTimestamp::new(*ts), droppable),
                     Item::Meta(m) => wld.s.send_metadata(sid, m),
                 };
                 match r {
